@@ -542,6 +542,48 @@ func hostileCmd(args []string) error {
 			exercise(s.Struct, s.Data[:cut], map[string]interface{}{"src": "truncation", "seed": s.Name, "cut": cut, "job": job}, emit)
 		}
 	}
+	// (d) long runs of one byte value (fill bytes, zero padding) at structure boundaries: depth of
+	// recursion, per-byte work and per-byte memory must stay harmless however long the run is
+	runLen := 24 << 20
+	for _, s := range seeds {
+		if s.Struct == "icc" {
+			continue
+		}
+		sigEnd := map[string]int{"png": 8, "jpeg": 2, "webp": 12}[s.Struct]
+		positions := []int{sigEnd, len(s.Data)}
+		names := make([]string, 0, len(s.Fields))
+		for k := range s.Fields {
+			names = append(names, k)
+		}
+		sort.Strings(names)
+		for _, fn := range names { // in front of (the length field of) every kind of structure
+			positions = append(positions, s.Fields[fn][0].Off)
+		}
+		if *tier != "thorough" && len(positions) > 4 {
+			positions = append(positions[:2], positions[2+rng.Intn(len(positions)-2)], positions[2+rng.Intn(len(positions)-2)])
+		}
+		for _, pos := range positions {
+			for _, bv := range []byte{0xFF, 0x00} {
+				if !mine() {
+					continue
+				}
+				if pos > len(s.Data) {
+					pos = len(s.Data)
+				}
+				d := make([]byte, 0, len(s.Data)+runLen)
+				d = append(d, s.Data[:pos]...)
+				for i := 0; i < runLen; i++ {
+					d = append(d, bv)
+				}
+				d = append(d, s.Data[pos:]...)
+				if *dumpCase == job {
+					return os.WriteFile(*dumpFile, d, 0o644)
+				}
+				begin(fmt.Sprintf("run of %d x %#02x in %s at %d", runLen, bv, s.Name, pos))
+				exercise(s.Struct, d, map[string]interface{}{"src": "longrun", "seed": s.Name, "at": pos, "byte": int(bv), "len": runLen, "job": job}, emit)
+			}
+		}
+	}
 	fmt.Fprintf(w, "#END %d\n", job)
 	return nil
 }
